@@ -137,7 +137,15 @@ def scenario(params, ch):
     try:
         w.run_until_connected()
         w.run(2)
+        if "wrap" in opts:
+            w.run(4)
+            w.preset_near_wrap()
         w.fates = FATES
+        if "cbraise" in opts:
+            # the application's callback of the FIRST message raises when it is told False / whenever it is called
+            w.cb_raise["m0"] = False
+        if "cbraiseall" in opts:
+            w.cb_raise["m0"] = "always"
         if "bidi" in opts:
             other = "s" if sender == "c" else "c"
             for j, (size, retry) in enumerate((("small", "retry"), ("small", "none"))):
@@ -268,6 +276,22 @@ def params_list(tier):
                 out.append((direction, msgs, None, 0, o, 1))
                 if tier == "thorough" or msgs[0][1] == "retry":
                     out.append((direction, msgs, ("s2c" if direction == "c2s" else "c2s", 0, 13), 0, o, 1))
+        # the owner stalls for longer than the message timeout right after the transmission
+        if tier == "quick":
+            for msgs in ((("small", "retry"),), (("frag2", "retry"),), (("small", "none"), ("small", "best"))):
+                out.append((direction, msgs, None, 1.2, "cs", 1))
+        # a user callback that raises must not take the callbacks (or the retransmission) of its datagram-mates with it
+        data_dir0 = "c2s" if direction == "c2s" else "s2c"
+        for o in ("cs|cbraise", "cs|cbraiseall"):
+            for msgs in ((("small", "none"), ("small", "none")), (("small", "best"), ("small", "retry")), (("small", "none"), ("frag2", "retry")), (("small", "retry"), ("small", "none"))):
+                for b in (None, (data_dir0, 0, 70), ("both", 0, 100)):
+                    if tier == "quick" and o == "cs|cbraiseall" and b is not None and b[0] != "both":
+                        continue
+                    out.append((direction, msgs, b, 0, o, 1))
+        # every counter a few numbers below the 16-bit wrap
+        for msgs in ((("small", "retry"), ("small", "none")), (("frag2", "retry"),), (("small", "best"),), (("frag2", "none"),)):
+            out.append((direction, msgs, None, 0, "cs|wrap", 1))
+            out.append((direction, msgs, ("s2c" if direction == "c2s" else "c2s", 0, 70), 0, "cs|wrap", 1))
         # a second message queued exactly when the resend of the first is due, acks late
         for at in ((7,) if tier == "quick" else (6, 7, 8, 13)):
             ack_dir0 = "s2c" if direction == "c2s" else "c2s"
@@ -321,9 +345,9 @@ def run(tier, seed):
         k = seed % len(plist)
         plist = plist[k:] + plist[:k]
     bound = 2
-    st = explore.explore_all("checks.c07", "scenario", plist, bound, time_budget=(200 if tier == "quick" else 2400))
+    st = explore.explore_all("checks.c07", "scenario", plist, bound, time_budget=(1000 if tier == "quick" else 4800))
     plist1 = params_list_bound1(tier)
-    st1 = explore.explore_all("checks.c07", "scenario", plist1, 1, time_budget=(120 if tier == "quick" else 900))
+    st1 = explore.explore_all("checks.c07", "scenario", plist1, 1, time_budget=(900 if tier == "quick" else 1800))
     st.violations.extend(st1.violations)
     b1 = {"configurations": len(plist1), "executions": st1.executions, "by_deviations": st1.by_cost, "capped_by_time_budget": st1.capped, "distinct_outcomes": len(st1.outcomes)}
     b3 = None
